@@ -60,7 +60,7 @@ def run(ctx):
     # (b) the name registries, sequentially: explicit-state BFS over create / look-up / drop / remove / log histories through
     # the public API against a reference model of who holds which sink
     ctx.rule += ("; registry BFS: histories over {create_or_get_sink(s), drop the user's reference, create_or_get_logger(L, sink set), "
-                 "remove_logger + poll to completion, log} for 2 sink names x 2 logger names x 3 sink sets up to the depth bound, state = "
+                 "remove_logger + poll to completion, log, create_or_get_logger(name, source logger) (copy of the other logger's options: same sink objects)} for 2 sink names x 2 logger names x 3 sink sets up to the depth bound, state = "
                  "registry entries in order (name, expired / object rank) + loggers + user references; after every step the live sink "
                  "objects, get_sink, get_logger and the sinks a statement reaches must equal the reference")
     reg = vf.build("c17_registry", SRC_REG, ["-O1"])
